@@ -39,7 +39,46 @@ def runs(p):
     return refdiff(q)
 
 
-FAMILIES = {'runs': runs}
+def many_groups(p):
+    """G distinct keys (concrete, G crosses 8 / 16 / 64 / 256) each with one concrete item, then symbolic items for the first, a middle and the last key:
+    every group must still receive exactly its own items, in order (group_by with to_list per group)"""
+    import rxsci as rs
+    from vp import drivers as D
+    from vp.harness import mk, fail
+    G = p['g']
+
+    def body(a):
+        v0, v1, v2 = a
+        items = [(k, k) for k in range(G)] + [(0, v0), (G // 2, v1), (G - 1, v2), (0, v1)]
+        out = D.run_mux(items, [rs.ops.group_by(lambda i: ('k', i[0]), [rs.data.to_list()])])
+        exp = []
+        for k in range(G):
+            exp.append([x for x in items if x[0] == k])
+        return out == exp or fail(groups=G, problem='groups differ', first_bad=[(i, o, e) for i, (o, e) in enumerate(zip(out, exp)) if o != e][:2], n_out=len(out))
+    return mk('many_groups', [('v0', 'int'), ('v1', 'int'), ('v2', 'int')], ['-2**40 <= v%d <= 2**40' % i for i in range(3)], body)
+
+
+def nested_density(p):
+    """group_by > roll(w, 1) > group_by: the inner parent keys are outer_index * ceil(w/s) + offset, i.e. sparse by a large factor"""
+    import rxsci as rs
+    from vp import drivers as D
+    from vp import refsem as R
+    from vp.harness import mk, fail
+    w = p['w']
+
+    def body(a):
+        v0, v1, v2 = a
+        items = [(0, v0), (1, v1), (0, v2), (1, v0)]
+        real = [rs.ops.group_by(lambda i: i[0], [rs.data.roll(w, 1, [rs.ops.group_by(lambda i: i[0] + 10, [rs.data.to_list(), rs.ops.map(lambda l: tuple(l))])])])]
+        ref = [R.GroupBy(lambda i: i[0], [R.Roll(w, 1, [R.GroupBy(lambda i: i[0] + 10, [R.Scan(lambda acc, i: acc + [i], list, reduce=True), R.Map(lambda l: tuple(l))])])])]
+        got = D.run_mux_done(items, real)
+        exp = [v for _, v in R.run(ref, items)] + [D.END]
+        from vp.props.common import multiset_eq
+        return (len(got) == len(exp) and got[-1] == D.END and multiset_eq(got[:-1], exp[:-1])) or fail(w=w, items=items, observed=got, expected=exp)
+    return mk('nested_density', [('v0', 'int'), ('v1', 'int'), ('v2', 'int')], ['-2**40 <= v%d <= 2**40' % i for i in range(3)], body)
+
+
+FAMILIES = {'runs': runs, 'many_groups': many_groups, 'nested_density': nested_density}
 
 
 def obligations(tier, seed):
@@ -64,5 +103,9 @@ def obligations(tier, seed):
             obs.append(Ob(PROP, 'runs', dict(ctx=ctx, km='tup2', inner='to_list', n=n), budget=150 if q else 900, bound=dict(items=n, ctx=ctx)))
     for k in (1, 2):
         obs.append(Ob(PROP, 'runs', dict(ctx='root', km='tup2', inner='to_list', n=3, retry=k), budget=120 if q else 900, group='after an aborted subscription', bound=dict(items=3, first_subscription_aborted_after=k)))
+    for g in ((9, 17, 65, 258) if q else (9, 17, 33, 65, 129, 258, 520)):
+        obs.append(Ob(PROP, 'many_groups', dict(g=g), budget=240 if q else 900, group='many groups', bound=dict(groups=g, values='3 symbolic items, the rest concrete')))
+    for w in ((17, 32) if q else (9, 17, 32, 64)):
+        obs.append(Ob(PROP, 'nested_density', dict(w=w), budget=240 if q else 900, group='nested sparse parent keys', bound=dict(window=w, stride=1, nesting='group_by > roll > group_by')))
     obs.append(Ob(PROP, 'runs', dict(ctx='root', km='tup2', inner='to_list', n=3, _twin='reach'), budget=60, expect='refute'))
     return obs
